@@ -173,4 +173,34 @@ StepHolds(name, e) ==
     [] name = "C18_Events"        -> C18_Events(e)
     [] name = "C18_Adopt"         -> C18_Adopt(e)
     [] name = "C18_Source"        -> C18_Source(e)
+
+\* is the step one the predicate actually constrains (its antecedent)?  Used only to
+\* measure how often each predicate was exercised (vacuity), never for a verdict.
+StepAnte(name, e) ==
+  CASE name = "C01_StaleNoEffect" -> IsNodeOp(e) /\ ~IsAbsent(e.pre) /\ Below(e) /\ ~LegitReclaim(e)
+    [] name = "C01_Forward"       -> IsNodeOp(e) /\ ~IsAbsent(e.pre) /\ ~IsAbsent(e.post) /\ e.post # e.pre
+    [] name = "C02_Refute"        -> IsNodeOp(e) /\ Accuses(e)
+    [] name = "C02_SelfAlive"     -> e.ev \in {"NodeOp", "Reap"} /\ ~e.leave /\ e.created
+    [] name = "C07_Serial"        -> e.ev \in {"NodeOp", "Reap"} /\ e.events # <<>>
+    [] name = "C08_Left"          -> IsNodeOp(e) /\ e.op = "dead" /\ e.claim.from = e.claim.node /\ e.post # e.pre
+    [] name = "C08_NoResurrect"   -> IsNodeOp(e) /\ e.op = "alive" /\ e.pre.state = "left" /\ ~AddrDiffers(e)
+                                     /\ e.claim.inc <= e.pre.inc
+    [] name = "C08_LeaverStays"   -> IsNodeOp(e) /\ e.op = "alive" /\ AboutSelf(e) /\ e.leave
+    [] name = "C08_NoHijack"      -> IsNodeOp(e) /\ e.op = "alive" /\ ~IsAbsent(e.pre) /\ AddrDiffers(e) /\ ~LegitReclaim(e)
+    [] name = "C08_Reuse"         -> IsNodeOp(e) /\ LegitReclaim(e)
+    [] name = "C09_Hearsay"       -> IsNodeOp(e) /\ e.via = "merge" /\ e.claim.kind = "dead" /\ ~IsAbsent(e.pre)
+    [] name = "C18_Records"       -> IsNodeOp(e) /\ e.cfg.allowOn /\ ~IsAbsent(e.post) /\ e.post # e.pre
+    [] name = "C18_Events"        -> e.ev \in {"NodeOp", "Reap"} /\ e.cfg.allowOn /\ e.events # <<>>
+    [] name = "C18_Adopt"         -> IsNodeOp(e) /\ e.op = "alive" /\ e.cfg.allowOn /\ ~e.allowed
+    [] name = "C18_Source"        -> e.ev = "UdpAlive" /\ e.cfg.allowOn /\ ~e.srcAllowed
+
+Sign(x) == IF x < 0 THEN -1 ELSE IF x > 0 THEN 1 ELSE 0
+
+\* the abstract class of a step: what distinguishes one exercised case from another
+StepClass(e) ==
+  IF IsNodeOp(e)
+  THEN <<e.op, e.via, e.claim.kind, e.pre.state, Sign(e.claim.inc - e.pre.inc),
+         IF IsAbsent(e.pre) THEN "new" ELSE IF AddrDiffers(e) /\ e.op = "alive" THEN "otheraddr" ELSE "sameaddr",
+         AboutSelf(e), e.boot, e.leave, e.tpre.on, e.allowed, e.filtered, e.post.state>>
+  ELSE <<e.ev>>
 =============================================================================
